@@ -117,6 +117,9 @@ func (s *Session) Reset() {
 	if s.delivery != nil {
 		s.abort(s.msgCtx)
 	}
+	// The error of a failed deferred MAIL FROM belongs to the transaction
+	// that ends here.
+	s.deliveryErr = nil
 	s.endp.Log.DebugMsg("reset")
 }
 
@@ -317,6 +320,8 @@ func (s *Session) Mail(from string, opts *smtp.MailOptions) error {
 	}
 
 	if s.endp.deferServerReject {
+		// New transaction, forget the error of the previous deferred attempt.
+		s.deliveryErr = nil
 		// Keep the MAIL FROM argument for deferred startDelivery.
 		// Otherwise startDelivery already stored the normalized address, the
 		// limits are taken and have to be released using it.
